@@ -6,6 +6,7 @@ __CPROVER_assigns(*out, *sum)
  * exactly the announced octets are consumed */
 __CPROVER_ensures(__CPROVER_return_value == 0 || (in->size >= 2 && __CPROVER_return_value == 2 + MPILEN(in) && in->size >= __CPROVER_return_value))
 __CPROVER_ensures(in->size < 2 ==> __CPROVER_return_value == 0)
+__CPROVER_ensures(__CPROVER_return_value == 0 || __CPROVER_return_value >= 2)
 __CPROVER_ensures(in->size >= 2 && in->size < 2 + MPILEN(in) ==> __CPROVER_return_value == 0)
 //@ loop 1
 __CPROVER_assigns(i, *sum, __CPROVER_object_whole(buffer))
@@ -19,6 +20,7 @@ __CPROVER_requires(MVEC_OK(in) && __CPROVER_is_fresh(out, sizeof(*out)) && __CPR
 __CPROVER_assigns(*out, *sum)
 __CPROVER_ensures(__CPROVER_return_value == 0 || (in->size >= 2 && __CPROVER_return_value == 2 + MPILEN(in) && in->size >= __CPROVER_return_value))
 __CPROVER_ensures(in->size < 2 ==> __CPROVER_return_value == 0)
+__CPROVER_ensures(__CPROVER_return_value == 0 || __CPROVER_return_value >= 2)
 //@ loop 1
 __CPROVER_assigns(i, *sum, __CPROVER_object_whole(buffer))
 __CPROVER_loop_invariant(i <= buflen && buflen == MPILEN(in) && in->size >= 2 + buflen)
@@ -28,10 +30,10 @@ __CPROVER_decreases(buflen - i)
 //@ function PacketStringDecode
 //@ contract
 __CPROVER_requires(MVEC_OK(in) && STR_OK(out))
-__CPROVER_assigns(out->size, __CPROVER_object_whole(out->data))
+__CPROVER_assigns(out->size; out->data != 0: __CPROVER_object_whole(out->data))
 /* a string is a new-format length followed by that many octets; partial and indeterminate lengths, empty strings
  * and short input are refused; the consumed octet count is header + length */
-__CPROVER_ensures(__CPROVER_return_value == 0 || (__CPROVER_return_value <= in->size && out->size == __CPROVER_old(out->size) + (__CPROVER_return_value - (in->data[0] < 192 ? 1 : (in->data[0] < 224 ? 2 : 5)))))
+__CPROVER_ensures(__CPROVER_return_value == 0 || (__CPROVER_return_value <= in->size && STR_GROWN(in, out, __CPROVER_return_value, __CPROVER_old(out->size))))
 __CPROVER_ensures(in->size < 1 ==> __CPROVER_return_value == 0)
 //@ loop 1
 __CPROVER_assigns(i, out->size, __CPROVER_object_whole(out->data))
@@ -45,6 +47,7 @@ __CPROVER_requires(MVEC_OK(in) && __CPROVER_is_fresh(out, sizeof(*out)))
 __CPROVER_assigns(*out)
 __CPROVER_ensures(__CPROVER_return_value == 0 || (in->size >= 2 && __CPROVER_return_value == 2 + MPILEN(in) && in->size >= __CPROVER_return_value))
 __CPROVER_ensures(in->size < 2 ==> __CPROVER_return_value == 0)
+__CPROVER_ensures(__CPROVER_return_value == 0 || __CPROVER_return_value >= 2)
 //@ end
 
 //@ function PacketMPIDecode2_secure
@@ -53,4 +56,5 @@ __CPROVER_requires(MVEC_OK(in) && __CPROVER_is_fresh(out, sizeof(*out)))
 __CPROVER_assigns(*out)
 __CPROVER_ensures(__CPROVER_return_value == 0 || (in->size >= 2 && __CPROVER_return_value == 2 + MPILEN(in) && in->size >= __CPROVER_return_value))
 __CPROVER_ensures(in->size < 2 ==> __CPROVER_return_value == 0)
+__CPROVER_ensures(__CPROVER_return_value == 0 || __CPROVER_return_value >= 2)
 //@ end
